@@ -321,6 +321,7 @@ def check(ctx) -> None:
     c12.rule_k1(ctx, "C03-V6")
     rule_v7(ctx)
     rule_v8(ctx, pl)
+    _carbon_clause_shared(ctx)
 
 
 def rule_v8(ctx, pl: Pipeline, rule_id: str = "C03-V8") -> None:
@@ -382,3 +383,10 @@ def rule_v7(ctx) -> None:
         ctx.instance("C03-V7", "run --min-confidence default %r" % (v,), cfgf.loc(c), ok=ok)
         if not ok:
             ctx.finding("C03-V7", "SynCmd.cmd_run.configure_argparser:default-threshold", cfgf.loc(c), "the `run` command defaults --min-confidence to %r, not 0: with default options low-confidence MCS results come back unsolved with their imputed molecules still in the reaction" % (v,))
+
+
+def _carbon_clause_shared(ctx) -> None:
+    # V9: the carbon label that V4 relies on is computed on self-contained fragments (shared with C07-E12)
+    from . import c07
+
+    c07.rule_e12(ctx, "C03-V9")
